@@ -46,6 +46,7 @@ package handlers
 
 //@ func (a *AccountingRequest) Handle(response tq.Response, request tq.Request)
 //@   implements tq.Handler.Handle
+//@   ensures[C12] ghost.hcalls == old(ghost.hcalls) + 1 ==> ghost.acctStatus == tq.AcctReplyStatusError
 //@   requires a != nil && a.loggerProvider != nil && a.configProvider != nil && a.recorderWriter != nil
 
 //@ func (l *ResponseLogger) Handle(response tq.Response, request tq.Request)
